@@ -1141,7 +1141,22 @@ def _adopt_returned_closures(fn):
         del stmts[i]
 
 
-def _drop_unambiguous_suffixes(fn):
+_REF_LOCALS = None
+
+
+def _reference_locals():
+    """qualified name -> local names of the function in the reference tree"""
+    global _REF_LOCALS
+    if _REF_LOCALS is None:
+        p = os.path.join(HERE, 'baseline_funcs.json')
+        try:
+            _REF_LOCALS = {q: set(v.get('names', ())) for q, v in json.load(open(p)).get('locals', {}).items()}
+        except Exception:
+            _REF_LOCALS = {}
+    return _REF_LOCALS
+
+
+def _drop_unambiguous_suffixes(fn, reference_names=()):
     """a local that came with an expanded helper (`ret__h1`) gets the helper's own name back (`ret`) when that name is free in the caller: no
     parameter, local, global or free name of the caller is called so, and no second expansion brought a local of the same base name. Rules that
     know a local of the original code by its name then read the extracted-and-expanded form like the original."""
@@ -1164,7 +1179,8 @@ def _drop_unambiguous_suffixes(fn):
             by_base.setdefault(m.group(1), []).append(n)
     ren = {}
     for base, lst in by_base.items():
-        if len(lst) == 1 and base not in names and not base.startswith('_'):
+        # (not a name the reference version of this function used for something: a rule may know that local by its name and meaning)
+        if len(lst) == 1 and base not in names and not base.startswith('_') and base not in reference_names:
             ren[lst[0]] = base
     if not ren:
         return
@@ -1215,7 +1231,7 @@ def normalise_calls(P):
                     from .canon import canonicalise_function
                     _adopt_returned_closures(f.node)
                     canonicalise_function(f.node, generated=True)
-                    _drop_unambiguous_suffixes(f.node)
+                    _drop_unambiguous_suffixes(f.node, _reference_locals().get(q, ()))
                     # closures that came with an expanded factory helper now live in this function
                     P._collect_nested(f.mod, f.cls, f.node, q, f.path)
             # a new helper every use of which was expanded no longer exists as a unit of the program the rules see: its statements are
